@@ -790,7 +790,14 @@ def run(ctx):
     prog = ctx.prog("basic", "N")
     root = ctx.root or facts.REPO
     return [rule_line_number(prog, root), rule_input_independence(prog), rule_indentation(prog), rule_count_extent(prog),
-            rule_listo_applies_to_every_line(prog), rule_whole_body_listed(prog), _shared_cursor_rule(prog)]
+            rule_listo_applies_to_every_line(prog), rule_whole_body_listed(prog), _shared_cursor_rule(prog), _shared_success_rule(prog)]
+
+
+def _shared_success_rule(prog):
+    from . import c09
+    r = c09.rule_success_only_at_end(prog)
+    r.rule = "R-C03-9"        # every line of a well-formed program is listed: the readers stop only at the end marker
+    return r
 
 
 def _shared_cursor_rule(prog):
